@@ -199,6 +199,34 @@ class Bench:
 			self.models.append(mdl)
 			self.budgets.append(Budget())
 
+	@classmethod
+	def from_app(cls, aw):
+		""" Shadow the transceivers of a real fake_trx.Application (sim.AppWorld). """
+		b = cls.__new__(cls)
+		b.world = aw
+		b.app = aw.app
+		b.nodes = aw.nodes
+		b.models = []
+		b.budgets = []
+		by_trx = {}
+		for node in aw.nodes:
+			t = node.trx
+			m = trxc.Trx(str(t), has_pm = t.pwr_meas is not None, child_idx = t.child_idx,
+				child_mgt = t.child_mgt, has_clock = t.clck_gen is not None)
+			by_trx[id(t)] = m
+			b.models.append(m)
+			b.budgets.append(Budget())
+		for node in aw.nodes:
+			for c in node.trx.child_trx_list.trx_list:
+				by_trx[id(node.trx)].children.append(by_trx[id(c)])
+		return b
+
+	def tick(self, fn):
+		if getattr(self, "app", None) is not None:
+			self.app.clck_handler(fn)
+		else:
+			self.world.tick(fn)
+
 	def cmd(self, i, text):
 		""" Send a well-formed command; returns (real status, model status).
 		    The model's drop budget is kept in step. """
@@ -227,5 +255,5 @@ class Bench:
 		for n in self.nodes:
 			n.rx_data()
 		acc = self.nodes[s].data_raw(trxd.encode(m))
-		self.world.tick(m["fn"])
+		self.tick(m["fn"])
 		return acc is not None, {j: n.rx_data() for j, n in enumerate(self.nodes)}
